@@ -12,7 +12,7 @@ func init() {
 		technique: "atomic-discipline rule over every field touched by sync/atomic, sibling cross-check over all Mailbox implementors (full-error/rollback, counter-before-publish, recycle-not-returned), slot publication order in the lock-free rings, lock pairing",
 		explanation: "Decides structural necessary conditions for each of the mailbox implementations (and the grain mailbox): (1) atomic discipline: every struct field passed by address to sync/atomic anywhere in the actor package is accessed only that way (constructors exempt); (2) siblings: every implementor of Mailbox is enumerated; an Enqueue that reports ErrMailboxFull does so only on a branch guarded by a capacity/sequence comparison and has rolled back any counter it had bumped; (3) a length counter read by IsEmpty/Len is incremented by Enqueue no later than the publication of the message where the type documents that (counter bump precedes the intake push); (4) Dequeue never recycles the context it returns: what goes back to the context pool is the previously returned one / the old sentinel, a different variable on every path; (5) ring slots: in the Vyukov ring the producer writes the message only after winning the position CAS and publishes the slot sequence only after writing the message; the consumer reads and clears the message before releasing the slot; the MPSC list links value.next=nil, swaps the tail, then links prev.next (the order the consumer relies on); (6) mutex-protected mailboxes release their lock on every exit. Linearizability, FIFO/priority order and capacity under interleavings are not decided.",
 		assumptions: []string{"linearizability of the lock-free queues under all interleavings, segment roll-over and ABA on pooled nodes", "single-consumer use of Dequeue (checked in C02)"},
-		minObl:     60,
+		minObl:     70,
 		run:        runC04,
 	})
 }
